@@ -93,7 +93,22 @@ def base_array(src, n, cplx=False):
     d['s'] = F(2)
     a = Num(d, (n,), False, nonneg=True)
     a.seg = S.identity(src, n)
+    a.view_of = frozenset(['the input PSD'])
     return a
+
+
+def check_no_mutation(rep, itp, rule_fn, label, where, seen):
+    """a conversion must not write into (a view of) the array it was given"""
+    bad = [e for e in itp.events if e[0] == 'inplace']
+    for e in bad:
+        key = ('inplace', e[3], normalise(e[1]))
+        if key in seen:
+            continue
+        seen.add(key)
+        rep.violation('no-input-mutation', e[3], normalise(e[1]),
+                      'in-place store into an array that shares memory with the caller\'s PSD: the conversion changes '
+                      'the stored spectrum it was asked to convert (first seen in %s)' % label, where)
+    return not bad
 
 
 def run(prog, rep, tier='quick'):
@@ -110,6 +125,9 @@ def run(prog, rep, tier='quick'):
     rep.rule('tools-helper', 'map of tools.<helper>(x) == reference map')
     rep.rule('sequence', 'map after p.sides=s1; ...; p.sides=sk from the default layout == reference map default->sk')
     rep.rule('axis', 'Range.<side>_gen yields integral bins times df, count == reference length')
+    rep.rule('no-input-mutation', 'no conversion stores in place into a slice/asarray view of the PSD it is given')
+    seen_mut = set()
+    n_mut = 0
     rep.assumptions += ['NFFT >= 8 (m >= 4): tiny transforms are not covered by the symbolic comparison',
                         'one-sided folding may take the +f or the -f copy (the PSD of real data is symmetric)']
     rep.trusted += ['numpy slicing / concatenate / append / array copy semantics', 'collections.deque.rotate']
@@ -140,6 +158,9 @@ def run(prog, rep, tier='quick'):
                     n_single += 1
                     if blocked(rep, 'single-conversion', gcp.qname, label, itp):
                         continue
+                    n_mut += 1
+                    if check_no_mutation(rep, itp, gcp.qname, label, loc(gcp.mod, gcp.node), seen_mut):
+                        rep.proved('no-input-mutation', gcp.qname, label, 'no in-place store into the stored PSD', loc(gcp.mod, gcp.node))
                     refs = ref_maps(s, t, parity, 'X')
                     where = loc(gcp.mod, gcp.node)
                     if v is None:
@@ -273,6 +294,9 @@ def run(prog, rep, tier='quick'):
             where = loc(f.mod, f.node)
             if blocked(rep, 'tools-helper', f.qname, label, itp):
                 continue
+            n_mut += 1
+            if check_no_mutation(rep, itp, f.qname, label, where, seen_mut):
+                rep.proved('no-input-mutation', f.qname, label, 'the input array is not written', where)
             refs = ref_maps(s, t, parity, 'X')
             if v is None:
                 rep.violation('tools-helper', f.qname, label, 'no normal path (assert/raise) for this parity', where)
@@ -310,6 +334,7 @@ def run(prog, rep, tier='quick'):
     rep.analysed['tools_contexts'] = n_tools
     rep.analysed['axes'] = n_axis
     rep.floor('single conversions', n_single, 6 * 2 + 2 * 2)
+    rep.floor('mutation checks', n_mut, 20)
     rep.floor('sequences', n_seq, 2 * (3 + 9 + 27) + 2 * (2 + 4 + 8))
     rep.floor('tools helper contexts', n_tools, 9)
     rep.floor('axis generators', n_axis, 6)
